@@ -59,6 +59,15 @@ func (c *ctx) genCFListBytes() []byte {
 func (c *ctx) genJoinCase(i int) *joinCase {
 	jc := &joinCase{kind: []string{"join", "join", "rejoin0", "rejoin1", "rejoin2"}[c.rnd.Intn(5)], known: c.rnd.Intn(8) != 0, micok: c.rnd.Intn(6) != 0,
 		nwk: c.key(), app: c.key(), devNonce: c.rnd.Intn(65536), joinNonce: c.rnd.Intn(1 << 24), rxDelay: c.rnd.Intn(16), cflist: c.genCFListBytes(), txid: c.rnd.Uint32()}
+	if c.rnd.Intn(5) == 0 {
+		jc.app = jc.nwk // a LoRaWAN 1.0 device has one root key
+	}
+	if c.rnd.Intn(6) == 0 { // counters at the ends of their ranges
+		jc.joinNonce = c.pick(0, 1, 1<<24-2, 1<<24-1)
+	}
+	if c.rnd.Intn(6) == 0 {
+		jc.devNonce = c.pick(0, 1, 65534, 65535)
+	}
 	copy(jc.devEUI[:], c.bytesN(8))
 	jc.devEUI[0] = byte(i) // distinct per case within a batch
 	jc.devEUI[1] = byte(i >> 8)
